@@ -176,6 +176,10 @@ def gen(run, w):
     rb = run.tlc('Gen_C04', ['SPECIFICATION GSpec', 'CONSTANTS WCoords = {"S1A1"} Values = {0,1,1000,1001} MaxBatch = 1 Rounds = 3'],
                  workers=2, timeout=1500, tag='Gen_C04_types')
     hists += [rec['h'] for rec in rb.records]
+    # ... and a cell may be cleared (None): the formula cell S1C1 and the constants it reads
+    rb = run.tlc('Gen_C04', ['SPECIFICATION GSpec', 'CONSTANTS WCoords = {"S1A1","S1C1"} Values = {999,4} MaxBatch = 2 Rounds = 2'],
+                 workers=2, timeout=1500, tag='Gen_C04_cleared')
+    hists += [rec['h'] for rec in rb.records]
     run.exhaustive['batch sequences: <= 3 single writes of 0 / 1 / FALSE / TRUE to one constant'] = True
     if not run.quick:
         r3 = run.tlc('Gen_C04', ['SPECIFICATION GSpec', f'CONSTANTS WCoords = {COORDS_Q} Values = {{2,4}} MaxBatch = 1 Rounds = 4'],
